@@ -126,7 +126,8 @@ def kw_values(r, fn):
         return v
 
     def tag():
-        return r.choice([None, "x", "yy", {"tuple": [1, 2]}, {"tuple": [1.0, 2]}, {"tuple": ["a", {"tuple": [1]}]}, 5])
+        return r.choice([None, "x", "yy", {"tuple": [1, 2]}, {"tuple": [1.0, 2]}, {"tuple": ["a", {"tuple": [1]}]}, 5,
+                         "a\\nb", 'q"uote', "it's", "new\nline", "\u03a3", "\U0001d6ba", {"tuple": ["back\\slash", 1]}])  # strings that need care when rendered into source text
 
     kw = {}
     if fn == "red_scale_sum":
